@@ -126,12 +126,26 @@ def run_sessions(tape):
                     if holder.get(no) == who:
                         holder[no] = None
 
+        async def sibling(u, attempt):
+            await asyncio.sleep([0, 100e-6, 1e-3][tape.draw("c15/sibling-start", 3)])
+            ec2 = ParallelEtherCat("sim0")
+            ec2.ethertype = 0x3000 + 16 * u + 8 + attempt
+            try:
+                async with ec2.run():
+                    world.count("c15/sibling-participant-in-one-process")
+                    await asyncio.sleep([0, 200e-6, 2e-3][tape.draw("c15/sibling-stay", 3)])
+            except FileNotFoundError:
+                world.count("c15/join-retried")
+
         async def main(loop):
             await asyncio.sleep(start)
             for r in range(rounds):
                 stay = [1e-3, 5e-3, 30e-3][tape.draw("c15/stay", 3)]
                 ntasks = 1 + tape.draw("c15/ntasks", 2)
                 nops = [1 + tape.draw("c15/nops", 4) for _ in range(ntasks)]
+                # a second participant of the same process (a helper master that uses
+                # no mailbox) joins and leaves while this one's exchanges go on
+                with_sibling = tape.chance("c15/sibling-participant", 25)
                 for attempt in range(4):
                     ec = ParallelEtherCat("sim0")
                     ec.ethertype = 0x3000 + 16 * u + attempt
@@ -140,7 +154,8 @@ def run_sessions(tape):
                             locks = {}
                             await asyncio.gather(*[
                                 exchanges_of(ec, locks, (u, r, k), nops[k])
-                                for k in range(ntasks)])
+                                for k in range(ntasks)], *(
+                                [sibling(u, attempt)] if with_sibling else []))
                             await asyncio.sleep(stay)
                         outcomes[(u, r)] = "ok"
                         break
@@ -396,7 +411,10 @@ def run(tape, scenario):
                 ec = make_ec(pno)
                 ec.mbx_lock_file = LockFile("/run/ebpf/sim0", *ec.terminal_addr_range)
                 await EtherCat.connect(ec)
-                tobj = [instrument(preinit(ec, st)) for st, _ in sterms]
+                if gentle:
+                    tobj = await asyncio.wait_for(attach(pno, ec), 2)
+                else:
+                    tobj = [instrument(preinit(ec, st)) for st, _ in sterms]
                 await asyncio.wait_for(asyncio.gather(
                     *[user(u, tobj[user_term[u]], nops[u]) for u in mine]), 5)
             except asyncio.TimeoutError:
@@ -406,6 +424,37 @@ def run(tape, scenario):
                 for u in mine:
                     outcomes.setdefault(u, f"{type(e).__name__}: {e}")
         return main
+
+    # in some 'processes' runs the terminals are attached the way the documentation asks
+    # parallel users to: Terminal.gentle_initialize. The terminals are found in INIT (with
+    # the station address an earlier session left, or none); the first process initialises
+    # them (new address) and brings them to PRE-OPERATIONAL, the others then find them so
+    gentle = multi and tape.chance("c15/attach-gently", 30)
+    attached = [False]
+    if gentle:
+        for k, (st, srv) in enumerate(sterms):
+            st.al_state = 1
+            struct.pack_into("<H", st.mem, 0x10,
+                             0 if tape.chance("c15/no-stale-address", 30) else 1005 + k)
+        first_proc = min(user_proc)
+
+    async def attach(pno, ec):
+        from ebpfcat.ethercat import MachineState, Terminal
+        tobj = []
+        if pno != first_proc:
+            while not attached[0]:
+                await asyncio.sleep(100e-6)
+        for k, (st, srv) in enumerate(sterms):
+            t = Terminal(ec)
+            t.name = st.name
+            await t.gentle_initialize(relative=-k)
+            if pno == first_proc:
+                await t.to_operational(MachineState.PRE_OPERATIONAL)
+            tobj.append(instrument(t))
+        if pno == first_proc:
+            attached[0] = True
+            world.count("c15/attached-by-gentle-initialize")
+        return tobj
 
     aborted = None
     with env:
